@@ -28,11 +28,30 @@ def idx_line(ctx, mism):
                 first = line.strip()
     return {"first_mismatch": first, "indices": (mism or "")[:400]}
 
+def model_oracle(ctx, res, name, cls, what):
+    viol = res.get(name)
+    if viol is None or viol == "[]":
+        return
+    lines = {}
+    try:
+        for line in open(os.path.join(ctx.work, "CasesC03.idx")):
+            lines[line.split("\t", 1)[0]] = line.strip()
+    except OSError:
+        pass
+    for m in re.findall(r"\d+", viol.split(":")[0])[:20]:
+        ctx.hits.append({"key": "C03:model-oracle:" + cls, "oracle": "model-oracle: " + name,
+                         "what": "the observed output violates the property predicate as evaluated in Coq: " + what,
+                         "case": lines.get(m, "case " + m)})
+
 def run(ctx):
     ctx.audit("Props.C03", ["c03_ssh_bound", "c03_x509_bound", "c03_too_long_refused",
                             "c03_nonpositive_refused", "c03_old_refuted",
                             "c03_upgrade_keeps_auth_instant", "c03_bound_after_upgrades",
-                            "c03_effective_window", "c03_config_independent", "c03_fixed_paths_ignore_request"])
+                            "c03_effective_window", "c03_config_independent", "c03_fixed_paths_ignore_request",
+                            "c03_effective_window_every_ca", "c03_window_independent_of_ca",
+                            "c03_not_yet_valid_ca_starts_now", "c03_nested_validity_refuted",
+                            "c03_nested_validity_agrees_when_ca_valid", "c03_obs_ok_not_future",
+                            "c03_obs_ok_not_beyond_limit"])
     gen = ctx.extract()
     ok, result, log = ctx.go_harness("cmd/keymasterd", "TestVerif_C03",
                                      ["kmd/common.go", "kmd/creds.go", "kmd/consts.go", "kmd/c03.go",
@@ -42,7 +61,7 @@ def run(ctx):
         if rc != 0:
             ctx.broken.append(("obligation", "gen:Consts.v", out[-1500:]))
         else:
-            ctx.gen_obligations("Obl_C03.v", ["c03_cap_is_24h", "c03_role_le_45d", "c03_aws_le_24h", "c03_24h", "c03_every_path_every_config"])
+            ctx.gen_obligations("Obl_C03.v", ["c03_cap_is_24h", "c03_role_le_45d", "c03_aws_le_24h", "c03_24h", "c03_every_path_every_config", "c03_every_path_every_ca_validity"])
             res = ctx.eval_cases(os.path.join(ctx.work, "CasesC03.v"), "c03_validity_vs_model")
             if res is not None:
                 n = res.get("c03_ncases")
@@ -60,5 +79,11 @@ def run(ctx):
                     ctx.broken.append(("correspondence", "c03_role_validity", res.get("c03_role_mismatches")))
                 if not corr(ctx, res, "c03_config_mismatches", "validity window on every path under %s configurations (one reflected knob at an extreme value each) = model effective_window for that configuration" % res.get("c03_nconfigs")):
                     ctx.broken.append(("correspondence", "c03_config_validity", idx_line(ctx, res.get("c03_config_mismatches"))))
+                if not corr(ctx, res, "c03_ca_mismatches", "validity window on every X.509 issuing path under %s installed CA validities (NotBefore an hour ago / now / in 40 minutes x NotAfter in years / in 10 minutes) = model effective_window_ca (which ignores the CA's dates)" % res.get("c03_ncas")):
+                    ctx.broken.append(("correspondence", "c03_ca_validity", idx_line(ctx, res.get("c03_ca_mismatches"))))
+                # model oracle: mismatching cases on which the OBSERVATION violates the property's own predicate
+                # (obs_starts_in_future / obs_ends_too_late evaluated in Coq) carry their input
+                model_oracle(ctx, res, "c03_violating_future", "future", "the issued certificate starts after the clock reading taken right after the answer")
+                model_oracle(ctx, res, "c03_violating_toolong", "toolong", "the issued certificate ends later than the moment of issuance + requested duration / path limit (or the authenticated-at instant + cap)")
     ctx.assumptions = ["clock readings are taken by the harness immediately before and after each request; the model must agree for some reading in that interval (+-1 s)"]
     return ctx.finish("bin/build-coq; coqc Audit/Obl_C03/CasesC03; go test -overlay TestVerif_C03", TRUSTED)
